@@ -6,3 +6,6 @@ package verifhook
 
 // Point marks a named point in the code. It does nothing unless built with the "verif" tag.
 func Point(name string, args ...string) {}
+
+// ID returns an identifier for a pointer-like value (channel, pointer). It is empty unless built with the "verif" tag.
+func ID(v interface{}) string { return "" }
